@@ -4,25 +4,25 @@ props={}
 for l in open('/verif/properties.jsonl'):
     p=json.loads(l); props[p['id']]=p
 claimed={
- 'C02':("For every single-byte modification of the outer hello (all offsets, all masks) and 8 field substitutions of one honest tuple shape, the solver shows that no path reaches acceptance; the ideal-HPKE model turns 'accepted' into 'the code passed byte-identical (key,suite,info,enc,seq,aad,payload)'.","ideal HPKE model; structured hello shape; length-byte growth bound; ciphertext-derived-length cut (counted)"),
+ 'C02':("For every single-byte modification of the outer hello (all offsets, all masks) and 12 field substitutions/insertions of one honest tuple shape, the solver shows that no path reaches acceptance, and that the honest tuple is accepted; the ideal-HPKE model turns 'accepted' into 'the code passed byte-identical (key,suite,info,enc,seq,aad,payload)'.",'ideal HPKE model; structured hello shape; length-byte growth bound; ciphertext-derived-length cut (counted)'),
  'C03':("All layouts within the bound (extension positions, marker position, referenced subsequence, padding, session id) are explored symbolically; the delivered record is compared byte for byte with a reference reconstruction; contents are symbolic.","ideal HPKE model; bounds on extension counts and lengths"),
- 'C04':("Each of 14 rule violations is applied with symbolic contents to a valid hello; error class, alert bytes, Close and no forwarding are asserted on every path.","ideal HPKE model; single faults; one hello shape"),
+ 'C04':("Each rule violation of the statement (R1..R10, several shapes each, incl. keyless servers and retry-hello rules in 18 variants) is applied with symbolic contents to a valid hello; error class, alert bytes and version, Close and no forwarding are asserted on every path.",'ideal HPKE model; single faults; one hello shape per rule'),
  'C05':("Raw and structured ClientHellos within the byte bounds: forwarded bytes equal the client's bytes, valid hellos are not refused, ServerName/ALPN equal a reference extraction and what crypto/tls's own server extracts from the forwarded bytes; later records after a non-accepted ECH pass untouched.","reference recogniser in the harness and crypto/tls's server (interpreted from SSA, real natively) are the oracles; raw bounds are small (x13 paths per 4 free bytes)"),
- 'C06':("All histories of 3 (4) records over 9 event kinds and 9 second-hello variants are explored and compared step by step with a reference monitor of the statement.","ideal HPKE model; history length bound; one record per call"),
+ 'C06':("All histories of 3 records over 10 event kinds, record types 20/21/23/24 and 6 (quick) / 13 (thorough) second-hello variants incl. a third hello are explored and compared step by step with a reference monitor of the statement; two connections sharing keys are explored for non-interference.",'ideal HPKE model; history length bound; one record per call'),
  'C07':("Read/Write pipes explored over symbolic record streams, cuts, chunkings and buffer sizes from stated sets, plus a one-step inductive Write harness over arbitrary invariant-satisfying states.","direct construction of the post-acceptance state; chunk sizes fixed per run"),
- 'C08':("Implicit Go assertions (bounds, nil, type assertion, unrecovered panic, loop unwinding) are checked by the engine on every path of raw and structured inputs to NewConn/Read/Write.","byte bounds; no heap-size measurement"),
+ 'C08':("Implicit Go assertions (bounds, nil, type assertion, unrecovered panic, loop unwinding) are checked by the engine on every path of raw and structured inputs to NewConn/Read/Write; record lengths around the accepted maximum; refusal paths.",'byte bounds; allocation measured only where vAllocated is asserted'),
  'C09':("Key lists with solver-chosen id collisions, target at every position or absent: verdict and reconstructed hello compared with the single-key expectation.","ideal HPKE model; first hellos only"),
- 'C10':("All scheduling-point interleavings of {hello available, NewConn returns, cancel, watcher runs} incl. both select outcomes are explored; SetDeadline after return and later I/O are asserted.","cooperative-scheduling model: no pre-emption between ordinary instructions"),
- 'C11':("Encoder vs hand-written section-4 layout, Spec/ParseConfigList round trips, refusal of 0/256-byte names, raw parser robustness, truncation and non-interference, for symbolic ids/KEMs/suites/keys/names within the bounds; crypto/tls's client parses the lists and picks the config (up to its HPKE sender).","crypto/tls server-side acceptance and real handshakes are not checked (C01); GenerateKey stubbed"),
- 'C12':("Every decoder path over bounded symbolic messages: no panic, loop-unwinding limit as termination assertion, RR data type matches RR type.","small byte bounds; floats opaque"),
- 'C13':("Encode/decode round trip for symbolic messages of the supported record types, decoding of reference-compressed responses, padding for all name lengths 0..130, ResponseCode as a bit-vector identity.","reference encoder in the harness; no second full codec"),
- 'C14':("Concrete name forms x symbolic zones: first query name per RFC 9460 2.3, bounded alias chain with loop, ordering, owner/CNAME filter against poisoned answers, rcode mapping, hostile name lengths.","name strings concrete; DoH seam"),
+ 'C10':("All scheduling-point interleavings of {hello available, NewConn returns, cancel, deadline expiry, watcher runs} incl. both select outcomes are explored in virtual time; SetDeadline after return, later I/O and the return time are asserted.",'cooperative-scheduling model: no pre-emption between ordinary instructions'),
+ 'C11':("Encoder vs hand-written section-4 layout, Spec/ParseConfigList round trips, refusal of 0/256-byte names, empty keys and empty suite lists, raw parser robustness and framing (extensions vector, list tiling, version), truncation and non-interference, for symbolic ids/KEMs/suites/keys/names within the bounds; crypto/tls's client parses the lists and picks the config, crypto/tls's server accepts the keys (both up to their HPKE set-up).",'real handshakes are not checked (C01); GenerateKey stubbed'),
+ 'C12':("Every decoder path over bounded symbolic messages: no panic, loop-unwinding limit as termination assertion, RR data type matches RR type, name/hint/list bounds, allocation bounded linearly in the message length, far and looping compression pointers.",'small byte bounds; floats opaque'),
+ 'C13':("Encode/decode round trip for symbolic messages of the supported record types, byte-exact comparison with a reference encoder, decoding of reference-compressed responses, padding for all name lengths 0..130 (5 shapes, option survival, idempotence), ResponseCode as a bit-vector identity.",'reference encoder in the harness; no second full codec'),
+ 'C14':("Concrete name forms (12 names, 20 literals) x symbolic zones: first query name per RFC 9460 2.3, bounded alias chain with loop and CNAME hops, ordering, owner/CNAME filter against poisoned answers, exact rcode mapping, completeness of served addresses, hostile name lengths and targets.",'name strings concrete; DoH seam'),
  'C15':("Yielded target sequence equals a straight-line reference for symbolic results, networks and early termination; deep snapshot (incl. spare capacity) unchanged; second enumeration identical.","bounds on record/address counts"),
- 'C16':("Sequential freshness: min-TTL as a 32-bit query over all TTL values; symbolic-clock histories against ghost fetch times with the real LRU code; repeated lookups served from an unmodified cache. Concurrency: two concurrent Resolve+Targets users under every schedule with <=2 pre-emptions at synchronisation points, with a vector-clock happens-before race monitor (native replay under -race).","DoH seam; history length bound; race detection only over synchronisation-point schedules of 2 goroutines"),
- 'C17':("Every DialFunc invocation over symbolic requirement/config/result/outcome combinations is checked against the statement's rules; the caller's tls.Config is compared with its snapshot.","cooperative scheduling, MaxConcurrency 1"),
- 'C18':("Reduced strength: virtual-time exploration of outcome/duration/cancellation assignments with select forks; order, concurrency bound, staggering, timeout, loser closing, leak freedom asserted.","no pre-emptive schedules; duration grid; engine-only upper time bounds"),
- 'C19':("h3 decision table, record filtering, scheme upgrade, Host preservation, TLS name pinning and plaintext refusal checked over symbolic HTTPS record sets for 4 URL forms; pool keys pairwise distinct for 12 adversarially similar origins; validated natively against the real http.Transport.","net/http pooling itself not encoded; RoundTrip model"),
- 'C20':("PublishECH over symbolic parameter strings, target lists and one injected fault: result order/codes, exactly-one ech token, other tokens preserved in order, no unrequested write.","seams hide HTTP/JSON/pagination; stated preconditions on parameters"),
+ 'C16':("Sequential freshness: min-TTL as a 32-bit query over all TTL values incl. NODATA; symbolic-clock histories against ghost fetch times with the real LRU code; repeated lookups served from an unmodified cache; failures never replace fresh entries. Concurrency: two concurrent Resolve+Targets users under every schedule with <=2 pre-emptions at synchronisation points, with a vector-clock happens-before race monitor over variables and maps (native replay under -race).",'DoH seam; history length bound; race detection only over synchronisation-point schedules of 2 goroutines'),
+ 'C17':("Every DialFunc invocation over symbolic requirement/config/result/outcome combinations (3-way record ECH x 3-way caller ECH, wrapped rejections, hostile retry configs, own Resolver, bootstrap) is checked against the statement's rules; the caller's tls.Config is compared with its snapshot.",'cooperative scheduling, MaxConcurrency 1'),
+ 'C18':("Reduced strength: virtual-time exploration of outcome/duration/cancellation assignments for <=3 targets with select forks, plus delay-bounded (2 delays) schedules with go/chan/select/atomic scheduling points; order, concurrency bound, staggering, timeout, exact return times, joined errors, loser closing, leak freedom asserted.",'bounded pre-emption only; duration grid; engine-only upper time bounds'),
+ 'C19':("h3 decision table, record filtering, scheme upgrade, Host preservation and override, TLS name pinning, caller TLSConfig, exact attempt sequence and plaintext refusal checked over symbolic HTTPS record sets for 4 URL forms; pool keys pairwise distinct for adversarially similar origins; validated natively against the real http.Transport.",'net/http pooling itself not encoded; RoundTrip model'),
+ 'C20':("PublishECH over symbolic parameter strings, three config lists (all base64 padding shapes), two zones, duplicate targets and one injected fault: result order/codes/Err(), exactly-one ech token, other tokens, priority and target preserved, no unrequested write, retry after a failed write, idempotent republish.",'seams hide HTTP/JSON/pagination; stated preconditions on parameters'),
 }
 checks=[]
 for pid in sorted(claimed):
